@@ -53,6 +53,49 @@ macro_rules! inp_t { ($($n:ident: $t:ty, $l:literal, $u:literal;)*) => { paste::
 	#[kani::proof] #[kani::unwind($u)] pub fn [<c08t_in_ $n>]() { h_inputs::<$t, $l>() } )* } } }
 crate::fixed_types_q!(inp_q);
 crate::fixed_types_t!(inp_t);
+/// wide compacts: slim variant (slice vs unknown-length vs one three-deep stack)
+fn h_inputs_slim<T: DecodeWithMemTracking + Spec, const L: usize>() {
+	let bytes: [u8; L] = kani::any();
+	let len: usize = kani::any();
+	kani::assume(len <= L);
+	let mut s0 = &bytes[..len];
+	let r0 = T::decode(&mut s0);
+	let u0 = len - s0.len();
+	let mut u = Unk(&bytes[..len]);
+	let r = T::decode(&mut u);
+	same_outcome(&r0, u0, &r, len - u.0.len());
+	let mut s = &bytes[..len];
+	let r2 = T::decode_with_depth_limit(u32::MAX, &mut CountedInput::new(&mut MemTrackingInput::new(&mut s, usize::MAX)));
+	same_outcome(&r0, u0, &r2, len - s.len());
+}
+#[kani::proof] #[kani::unwind(19)] pub fn c08t_in_compact_u64_slim() { h_inputs_slim::<Compact<u64>, 10>() }
+
+/// empty-encoding element types with a non-zero size: a sequence of them is just its count, whatever the input kind
+#[cfg(feature = "ext")]
+pub mod empty_encoding {
+	use super::*;
+	#[derive(Encode, Decode, Default)]
+	pub struct AllSkipped { #[codec(skip)] pub a: u64 }
+	impl DecodeWithMemTracking for AllSkipped {}
+	#[kani::proof]
+	#[kani::unwind(8)]
+	pub fn c08q_in_vec_of_empty_encoding_elems() {
+		let bytes: [u8; 2] = kani::any();
+		let len: usize = kani::any();
+		kani::assume(len <= 2);
+		let mut a = Pre::count(3, &bytes[..len]);
+		let ra = Vec::<AllSkipped>::decode(&mut a);
+		let mut b = PreUnk(Pre::count(3, &bytes[..len]));
+		let rb = Vec::<AllSkipped>::decode(&mut b);
+		let mut c = Pre::count(3, &bytes[..len]);
+		let rc = Vec::<AllSkipped>::decode(&mut CountedInput::new(&mut c));
+		assert!(ra.is_ok() && rb.is_ok() && rc.is_ok(), "a sequence of empty-encoding elements must decode from any input kind");
+		assert!(a.rest.len() == len && b.0.rest.len() == len && c.rest.len() == len, "nothing but the count may be consumed");
+		let rd = alloc::collections::VecDeque::<AllSkipped>::decode(&mut Pre::count(2, &bytes[..0]));
+		assert!(rd.map(|d| d.len()) == Ok(2));
+		core::mem::forget((ra, rb, rc));
+	}
+}
 
 /// containers: concrete count prefix; slice-like vs unknown-length vs wrapper stacks
 pub fn h_inputs_cnt<T: DecodeWithMemTracking + Spec, const L: usize>(c: u32, symbolic_len: bool) {
@@ -176,6 +219,22 @@ pub mod ioreader {
 		}
 		core::mem::forget(r1);
 		core::mem::forget(r0);
+	}
+	/// zero-length reads (empty arrays) through a reader: must succeed like on a slice, at any chunk size and at end of input
+	#[kani::proof]
+	#[kani::unwind(8)]
+	pub fn c08q_ioreader_zero_length_reads() {
+		let bytes: [u8; 2] = kani::any();
+		let chunk: usize = kani::any();
+		kani::assume(chunk >= 1 && chunk <= 2);
+		let mut s = &bytes[..];
+		let r0 = <(u8, [u8; 0], u8, [u32; 0])>::decode(&mut s);
+		let mut rd = IoReader(Short { data: &bytes[..], chunk });
+		let r1 = <(u8, [u8; 0], u8, [u32; 0])>::decode(&mut rd);
+		assert!(r0.is_ok() && r1.is_ok(), "a zero-length read through IoReader failed where the slice succeeds");
+		let mut empty = IoReader(Short { data: &bytes[..0], chunk });
+		assert!(<[u8; 0]>::decode(&mut empty).is_ok() && <[u16; 0]>::decode(&mut &bytes[..0]).is_ok());
+		core::mem::forget(r1);
 	}
 	#[kani::proof] #[kani::unwind(8)] pub fn c08q_ioreader_tuple() { h_ioreader::<(Compact<u32>, Option<u16>), 5>() }
 	#[kani::proof] #[kani::unwind(8)] pub fn c08t_ioreader_u32() { h_ioreader::<u32, 4>() }
